@@ -174,10 +174,15 @@ class G:
         if env.get("str"):
             opts += ["var", "var", "fnvar", "fnvar"]
         if d < self.max_depth:
-            opts += ["lower", "upper", "concat", "name", "str", "repr", "get_type"] * 3 + ["ctor"]
+            opts += ["lower", "upper", "concat", "name", "str", "repr", "get_type"] * 3 + ["ctor", "litcall", "litcall"]
         k = self.pick(opts)
         if k == "lit":
             return self.strlit()
+        if k == "litcall":
+            # a call whose argument is a literal; the literals are pairwise EQUAL in Python (1 == 1.0 == True) but of
+            # different types, so the results differ: str(1), str(1.0), str(True) within one process
+            self.use("call-on-literal")
+            return "%s(%s)" % (self.pick(["str", "repr", "get_type", "str"]), self.pick(EQUAL_LITERALS))
         if k == "field":
             return "r." + self.pick(STR_FIELDS)
         if k == "var":
@@ -517,6 +522,9 @@ def ref_names(r):
     if hasattr(r, "_desc"):
         return {r._desc.name}
     return ["UnknownRecord"]
+
+
+EQUAL_LITERALS = ["0", "1", "True", "False", "0.0", "1.0", "2", "2.0", "'1'", "'True'", "1.5", "(1 + 0)", "(1 / 1)"]
 
 
 def ref_get_type(o):
